@@ -97,6 +97,11 @@ class Case:
         from vf.simnet import msgs as M
         self.M, self.REALM, self.NODE_HOST = M, REALM, NODE_HOST
         self.run = run
+        # "~busy": a neighbour connection (of the second configured peer) is ready and sends a watchdog request into
+        # every loop pass of a clock step: select() never times out, the deadlines are due all the same
+        self.busy = direction.endswith("~busy") and len(CONFIGS[cfg_name]["peers"]) > 1
+        self.busy_sp, self.busy_n = None, 0
+        direction = direction.split("~")[0]
         self.cfg_name, self.direction, self.script = cfg_name, direction, script
         cfg = dict(CONFIGS[cfg_name])
         cfg["peers"] = [dict(p) for p in cfg["peers"]]
@@ -232,9 +237,20 @@ class Case:
                 self.check_ce_content(fr[0], "cer")
                 self.cer_ids = (fr[0].h.hbh, fr[0].h.e2e)
                 self.state = "await_cea"
+            if self.busy:
+                name2 = CONFIGS[self.cfg_name]["peers"][1]["name"]
+                self.busy_sp = h.inbound(ip="10.1.0.2", port=41999)
+                h.settle()
+                self.busy_sp.send(M.cer(name2, self.REALM, auth=self.auth_ids or [4], acct=self.acct_ids, hbh=7, e2e=7))
+                h.settle()
+                self.busy_sp.drain()
+                self.busy = False if self.direction == "in+ready" else True
+                if self.direction == "out":
+                    self.t_ref = min(self.t_ref, h.now)
             w.observe()
             self.seen = len(self.p.frames)
-            self.pre_ready_routing_check()
+            if not self.busy:
+                self.pre_ready_routing_check()
             i = 0
             while i < len(self.script):
                 if self.state in ("closed", "unspecified", "done"):
@@ -310,7 +326,18 @@ class Case:
             ids = None
         else:
             ids = self.send_letter(letter, mod)
-        h.settle()
+        if letter.startswith("ADV") and self.busy and self.busy_sp is not None and not self.busy_sp.node_sock.closed:
+            for _ in range(6):
+                self.busy_n += 1
+                self.busy_sp.send(self.M.dwr(CONFIGS[self.cfg_name]["peers"][1]["name"], self.REALM,
+                                             hbh=20000 + self.busy_n, e2e=30000 + self.busy_n))
+                h.tick()
+                h.wait_workers_idle(1)
+            self.busy_sp.drain()
+            self.busy_sp.frames.clear()
+            self.run.cov["clock_steps_with_busy_neighbour"] = self.run.cov.get("clock_steps_with_busy_neighbour", 0) + 1
+        else:
+            h.settle()
         ev = w.observe()["events"]
         frames = self.p.frames[self.seen:]
         self.seen = len(self.p.frames)
@@ -320,7 +347,7 @@ class Case:
         self.judge(letter, ids, frames, deliv, closed)
         self.transitions.add((st0, letter.rstrip("0123456789") if letter.startswith("ADV") else
                               ("CERx" if letter.startswith("CERx") else letter), self.state))
-        if self.state in ("await_cer", "await_cea", "rejected"):
+        if self.state in ("await_cer", "await_cea", "rejected") and self.busy_sp is None:
             self.pre_ready_routing_check()
 
     def step_joined(self, l1, l2):
@@ -591,7 +618,7 @@ class Run:
             del self.wit[n0:]
             self.cov["cases_voided_by_thread_death"] = self.cov.get("cases_voided_by_thread_death", 0) + 1
         self.evals += 1
-        self.cov["histories_by_dir"][direction] += 1
+        self.cov["histories_by_dir"][direction.split("~")[0]] += 1
         self.cov["by_config"][cfg] = self.cov["by_config"].get(cfg, 0) + 1
         self.cov["steps"] += len(c.trace)
         for t in c.transitions:
@@ -709,6 +736,9 @@ def run_shard(spec):
                             script.append("ADV1")
                         run.one(cfg, direction, script)
                         run.cov["timing_cases"] = run.cov.get("timing_cases", 0) + 1
+                        if len(c["peers"]) > 1 and noise in (None, "DWR"):
+                            run.one(cfg, direction + "~busy", script)
+                            run.cov["timing_cases_with_busy_neighbour"] = run.cov.get("timing_cases_with_busy_neighbour", 0) + 1
     return run.result()
 
 
